@@ -74,6 +74,17 @@ CLAIMED = {
              "byte-identical after every call. Exploration.",
         note="SimParallel replaces joblib.Parallel for n_jobs >= 2; n_jobs None/1 run real code. Thread modes model the "
              "threading backend users select via joblib.parallel_config."),
+    "C18": dict(
+        design="4/C18", engine="history",
+        technique="deterministic simulation of estimator histories: scheduler-interleaved fit / transform / fit_transform / "
+                  "refit sequences over several imagers and landscapers, checked step by step against a fresh-twin "
+                  "reference model; imager collection transforms under the SimParallel worker scheduler",
+        text="Seeded search over histories (2..14 ops, 1..4 estimators, 2..4 deliberately shifted/scaled/disjoint data "
+             "sets): after every fit the instance equals a fresh estimator fitted once on the latest data, fit;transform "
+             "== fit_transform, transform repeatable and state/input preserving, collection output k is the image of "
+             "diagram k under every worker schedule. Exploration.",
+        note="The landscaper has no scheduling nondeterminism: simulation contributes interleaved histories and the "
+             "reference twin; outputs compared rel 1e-9."),
 }
 
 NOT_APPLICABLE = {
